@@ -64,7 +64,7 @@ def main():
         for v in s['violations']:
             if v['prop'] == 'MACHINERY':
                 mach.append(v); continue
-            if v['prop'] not in props:
+            if v['prop'] not in props and not any(fnmatch.fnmatchcase('%s:%s' % (v['prop'], v['sig']), pat) for pat in spec.get('also', [])):
                 co_observed['%s:%s' % (v['prop'], v['sig'])] = co_observed.get('%s:%s' % (v['prop'], v['sig']), 0) + v['count']
                 continue
             kf = [f for f in known['findings'] if f['property'] == v['prop'] and fnmatch.fnmatchcase(v['sig'], f['sig'])]
@@ -125,6 +125,15 @@ def main():
         'components': COMPONENTS,
         'exhaustive': False,
     }
+    # forest enumeration: fold the per-shape counters into one figure per size
+    shapes = {}
+    for k in list(cov['probes']):
+        if k.startswith('fshape:'):
+            n_ = k.split(':')[1]; shapes[n_] = shapes.get(n_, 0) + 1; del cov['probes'][k]
+    if shapes:
+        cov['elimination_forest_shapes_factorized'] = {'by_columns': {('n=%s' % k): v for k, v in sorted(shapes.items())},
+            'note': 'distinct postordered elimination forests (as numbered by the library) that were factorized with info = 0; the number of postordered forests on n nodes is the Catalan number 1, 2, 5, 14, 42, 132, 429, 1430'}
+        cov['probes']['forest_shapes_distinct'] = sum(shapes.values())
     zero = [p for p in spec.get('must_probe', []) if cov['probes'].get(p, 0) == 0]
     if zero:
         cov['probes_stuck_at_zero'] = zero
